@@ -1,6 +1,7 @@
 import MpgsModel.Lemmas.Live
 import MpgsModel.Lemmas.C12Typed
 import MpgsModel.Lemmas.Pack
+import MpgsModel.Lemmas.LiveBuild
 /-!
 At-most-once for user callbacks (C07), as a potential argument over whole histories.
 
@@ -8,7 +9,8 @@ At-most-once for user callbacks (C07), as a potential argument over whole histor
 of a queued message, in a parked callback list, inside a `RetrySender` that has not reported, as
 the user callback of a `FragmentSender` that has not reported.  Every operation satisfies
 `pot u c' + fired u events ≤ pot u c + introduced u op`; hence over any history the number of
-invocations of `u` is bounded by the number of sends that were given `u`.
+invocations of `u` is bounded by the number of sends that were given `u`.  With a typed queue, fresh
+datagram numbers and no disconnect the inequality is an equality (conservation): nothing is lost.
 -/
 namespace Mpgs.Conn
 open Mpgs.Bytes Mpgs.Wire
@@ -189,7 +191,7 @@ theorem direct0_sendType (u : Nat) (c : Conn) (ty : PType) (p : Bytes) (r : Int)
 /-! ### callbacks -/
 
 theorem pot_runLeaf (u : Nat) (c : Conn) (cb : Cb) (v : Bool) (hd : Direct0 u c) :
-    pot u (runLeaf c cb v).1 + fired u (runLeaf c cb v).2 ≤ pot u c + isU u (some cb) ∧
+    pot u (runLeaf c cb v).1 + fired u (runLeaf c cb v).2 = pot u c + isU u (some cb) ∧
     Direct0 u (runLeaf c cb v).1 := by
   cases cb with
   | user id =>
@@ -200,26 +202,26 @@ theorem pot_runLeaf (u : Nat) (c : Conn) (cb : Cb) (v : Bool) (hd : Direct0 u c)
     · have : ¬ (some (Cb.user id) = some (Cb.user u)) := by
         intro e; injection e with e; injection e with e; exact h e
       simp [h, this]
-  | retry rid => exact ⟨by simp [runLeaf, fired], hd⟩
-  | helloTimeout => exact ⟨by simp [runLeaf, fired], hd⟩
-  | challengeTimeout => exact ⟨by simp [runLeaf, fired], hd⟩
-  | clientDisconnect => exact ⟨by simp [runLeaf, fired, firedE], hd⟩
+  | retry rid => exact ⟨by simp [runLeaf, fired, isU], hd⟩
+  | helloTimeout => exact ⟨by simp [runLeaf, fired, isU], hd⟩
+  | challengeTimeout => exact ⟨by simp [runLeaf, fired, isU], hd⟩
+  | clientDisconnect => exact ⟨by simp [runLeaf, fired, firedE, isU], hd⟩
   | frag fid idx =>
     simp only [runLeaf]
     cases hf : c.fragObjs[fid]? with
-    | none => exact ⟨by simp [fired], hd⟩
+    | none => exact ⟨by simp [fired, isU], hd⟩
     | some obj =>
       simp only
       cases ha : obj.acks[idx]? with
-      | none => exact ⟨by simp [fired], hd⟩
+      | none => exact ⟨by simp [fired, isU], hd⟩
       | some a =>
         cases a with
-        | some b => exact ⟨by simp [fired], hd⟩
+        | some b => exact ⟨by simp [fired, isU], hd⟩
         | none =>
           simp only
           split
           · refine ⟨?_, direct0_sendType u c _ _ _ _ hd (by intro h; cases h)⟩
-            simp only [pot_sendType, fired, isU_frag]; omega
+            simp only [pot_sendType, fired, isU_frag]
           · -- the slot is resolved; the user callback fires when it was the last one
             have hnot : (obj.acks.all (fun a => a.isSome)) = false := by
               apply Bool.eq_false_iff.mpr
@@ -266,7 +268,7 @@ theorem pot_runLeaf (u : Nat) (c : Conn) (cb : Cb) (v : Bool) (hd : Direct0 u c)
               omega
 
 theorem pot_runCb (u : Nat) (c : Conn) (cb : Cb) (v : Bool) (hd : Direct0 u c) :
-    pot u (runCb c cb v).1 + fired u (runCb c cb v).2 ≤ pot u c + isU u (some cb) ∧
+    pot u (runCb c cb v).1 + fired u (runCb c cb v).2 = pot u c + isU u (some cb) ∧
     Direct0 u (runCb c cb v).1 := by
   cases cb with
   | user id => simp only [runCb]; exact pot_runLeaf u c _ v hd
@@ -277,11 +279,11 @@ theorem pot_runCb (u : Nat) (c : Conn) (cb : Cb) (v : Bool) (hd : Direct0 u c) :
   | retry rid =>
     simp only [runCb]
     cases ho : c.retryObjs[rid]? with
-    | none => exact ⟨by simp [fired], hd⟩
+    | none => exact ⟨by simp [fired, isU], hd⟩
     | some obj =>
       simp only
       split
-      · exact ⟨by simp [fired], hd⟩
+      · exact ⟨by simp [fired, isU], hd⟩
       · rename_i hdone
         split
         · -- failure: re-queued under the sender object itself
@@ -312,13 +314,15 @@ theorem pot_runCb (u : Nat) (c : Conn) (cb : Cb) (v : Bool) (hd : Direct0 u c) :
             omega
           · rename_i heq
             refine ⟨?_, hd1⟩
+            have hi : isU u obj.inner = 0 := by rw [heq]; simp [isU]
+            rw [hi] at hset
             simp only [pot, fired, isU_retry]
             omega
 
 def cntAll (u : Nat) (cbs : List Cb) : Nat := cntU u cbs
 
 theorem pot_runCbs (u : Nat) (c : Conn) (cbs : List Cb) (v : Bool) (hd : Direct0 u c) :
-    pot u (runCbs c cbs v).1 + fired u (runCbs c cbs v).2 ≤ pot u c + cntU u cbs ∧
+    pot u (runCbs c cbs v).1 + fired u (runCbs c cbs v).2 = pot u c + cntU u cbs ∧
     Direct0 u (runCbs c cbs v).1 := by
   induction cbs generalizing c with
   | nil => exact ⟨by simp [runCbs, fired, cntU], hd⟩
@@ -357,7 +361,7 @@ theorem mem_clearRetry (prm : List (Nat × PMsg)) (ks : List Nat) (x : Nat × PM
         · exact List.mem_cons_of_mem _ (ih2 e)
 
 theorem pot_resolve (u : Nat) (c : Conn) (s : Nat) (ok : Bool) (hd : Direct0 u c) :
-    pot u (resolve c s ok).1 + fired u (resolve c s ok).2 ≤ pot u c ∧ Direct0 u (resolve c s ok).1 := by
+    pot u (resolve c s ok).1 + fired u (resolve c s ok).2 = pot u c ∧ Direct0 u (resolve c s ok).1 := by
   unfold resolve
   simp only
   have hp0 : pot u (if ok = true then { c with acked := c.acked + 1 } else { c with timeouts := c.timeouts + 1 }) = pot u c := by
@@ -401,7 +405,7 @@ theorem pot_resolve (u : Nat) (c : Conn) (s : Nat) (ok : Bool) (hd : Direct0 u c
 /-! ### the loops over `resolve` -/
 
 theorem pot_checkTimeoutKeys (u : Nat) (c : Conn) (t : Int) (ks : List Nat) (hd : Direct0 u c) :
-    pot u (checkTimeoutKeys c t ks).1 + fired u (checkTimeoutKeys c t ks).2 ≤ pot u c ∧
+    pot u (checkTimeoutKeys c t ks).1 + fired u (checkTimeoutKeys c t ks).2 = pot u c ∧
     Direct0 u (checkTimeoutKeys c t ks).1 := by
   induction ks generalizing c with
   | nil => exact ⟨by simp [checkTimeoutKeys, fired], hd⟩
@@ -417,7 +421,7 @@ theorem pot_checkTimeoutKeys (u : Nat) (c : Conn) (t : Int) (ks : List Nat) (hd 
       · exact ih c hd
 
 theorem pot_handleAckKeys (u : Nat) (c : Conn) (a b : Nat) (ks : List Nat) (hd : Direct0 u c) :
-    pot u (handleAckKeys c a b ks).1 + fired u (handleAckKeys c a b ks).2 ≤ pot u c ∧
+    pot u (handleAckKeys c a b ks).1 + fired u (handleAckKeys c a b ks).2 = pot u c ∧
     Direct0 u (handleAckKeys c a b ks).1 := by
   induction ks generalizing c with
   | nil => exact ⟨by simp [handleAckKeys, fired], hd⟩
@@ -575,16 +579,16 @@ theorem pot_buildPacket (u : Nat) (sz : Sizes) (c : Conn) (t : Int) (hd : Direct
 
 /-- handshake handlers neither hold nor invoke user callbacks -/
 def Role.KeepsPot (R : Role) : Prop :=
-  (∀ u c t b, Direct0 u c → pot u (R.clientHello c t b).1 + fired u (R.clientHello c t b).2.1 ≤ pot u c ∧ Direct0 u (R.clientHello c t b).1) ∧
-  (∀ u c t b, Direct0 u c → pot u (R.serverHello c t b).1 + fired u (R.serverHello c t b).2.1 ≤ pot u c ∧ Direct0 u (R.serverHello c t b).1) ∧
-  (∀ u c t b, Direct0 u c → pot u (R.challengeResp c t b).1 + fired u (R.challengeResp c t b).2.1 ≤ pot u c ∧ Direct0 u (R.challengeResp c t b).1)
+  (∀ u c t b, Direct0 u c → pot u (R.clientHello c t b).1 + fired u (R.clientHello c t b).2.1 = pot u c ∧ Direct0 u (R.clientHello c t b).1) ∧
+  (∀ u c t b, Direct0 u c → pot u (R.serverHello c t b).1 + fired u (R.serverHello c t b).2.1 = pot u c ∧ Direct0 u (R.serverHello c t b).1) ∧
+  (∀ u c t b, Direct0 u c → pot u (R.challengeResp c t b).1 + fired u (R.challengeResp c t b).2.1 = pot u c ∧ Direct0 u (R.challengeResp c t b).1)
 
 theorem baseRole_keepsPot : baseRole.KeepsPot :=
   ⟨fun _ _ _ _ h => ⟨by simp [baseRole, fired], h⟩, fun _ _ _ _ h => ⟨by simp [baseRole, fired], h⟩,
    fun _ _ _ _ h => ⟨by simp [baseRole, fired], h⟩⟩
 
 theorem pot_recvAppFragment (u : Nat) (c : Conn) (t : Int) (m : Nat) (f : Bytes) (hd : Direct0 u c) :
-    pot u (recvAppFragment c t m f).1 + fired u (recvAppFragment c t m f).2.1 ≤ pot u c ∧
+    pot u (recvAppFragment c t m f).1 + fired u (recvAppFragment c t m f).2.1 = pot u c ∧
     Direct0 u (recvAppFragment c t m f).1 := by
   unfold recvAppFragment
   split
@@ -595,7 +599,7 @@ theorem pot_recvAppFragment (u : Nat) (c : Conn) (t : Int) (m : Nat) (f : Bytes)
     · exact ⟨by simp [fired, fragStore, pot], hd⟩
 
 theorem pot_recvMessage (u : Nat) (R : Role) (hR : R.KeepsPot) (c : Conn) (t : Int) (m : WMsg) (hd : Direct0 u c) :
-    pot u (recvMessage R c t m).1 + fired u (recvMessage R c t m).2.1 ≤ pot u c ∧
+    pot u (recvMessage R c t m).1 + fired u (recvMessage R c t m).2.1 = pot u c ∧
     Direct0 u (recvMessage R c t m).1 := by
   unfold recvMessage
   split
@@ -615,7 +619,7 @@ theorem pot_recvMessage (u : Nat) (R : Role) (hR : R.KeepsPot) (c : Conn) (t : I
     · exact ⟨by simp [fired, pot], hd⟩
 
 theorem pot_recvMessages (u : Nat) (R : Role) (hR : R.KeepsPot) (c : Conn) (t : Int) (ms : List WMsg) (hd : Direct0 u c) :
-    pot u (recvMessages R c t ms).1 + fired u (recvMessages R c t ms).2.1 ≤ pot u c ∧
+    pot u (recvMessages R c t ms).1 + fired u (recvMessages R c t ms).2.1 = pot u c ∧
     Direct0 u (recvMessages R c t ms).1 := by
   induction ms generalizing c with
   | nil => exact ⟨by simp [recvMessages, fired], hd⟩
@@ -637,9 +641,9 @@ theorem pot_recvMessages (u : Nat) (R : Role) (hR : R.KeepsPot) (c : Conn) (t : 
 
 theorem pot_recvDatagram (u : Nat) (C : Crypto) (R : Role) (hR : R.KeepsPot) (c : Conn) (t : Int) (h : Header)
     (d : Bytes) (hd : Direct0 u c) :
-    pot u (recvDatagram C R c t h d).1 + fired u (recvDatagram C R c t h d).2.1 ≤ pot u c ∧
+    pot u (recvDatagram C R c t h d).1 + fired u (recvDatagram C R c t h d).2.1 = pot u c ∧
     Direct0 u (recvDatagram C R c t h d).1 := by
-  have hdrop : pot u (drop1 c).1 + fired u (drop1 c).2.1 ≤ pot u c ∧ Direct0 u (drop1 c).1 :=
+  have hdrop : pot u (drop1 c).1 + fired u (drop1 c).2.1 = pot u c ∧ Direct0 u (drop1 c).1 :=
     ⟨by simp [drop1, fired, firedE, pot], hd⟩
   unfold recvDatagram
   cases fromBytes C h c.key d with
@@ -857,6 +861,278 @@ theorem pot_run (u : Nat) (E : Env) (hR : E.R.KeepsPot) (c : Conn) (ops : List O
     have h1 := pot_step u E hR c op hd hop
     have h2 := ih (step E c op).1 h1.2 hrest
     simp only [run, firedO_append, intros7]
+    omega
+
+/-! ### conservation: with a typed queue, fresh datagram numbers and no disconnect nothing is lost -/
+
+theorem occCbs_aset_fresh (u : Nat) (l : List (Nat × List Cb)) (s : Nat) (cbs : List Cb) (h : aget l s = none) :
+    occCbs u (aset l s cbs) = occCbs u l + cntU u cbs := by
+  induction l with
+  | nil => simp [aset, occCbs]
+  | cons x t ih =>
+    obtain ⟨k, v⟩ := x
+    simp only [aget] at h
+    simp only [aset]
+    by_cases hk : k = s
+    · simp [hk] at h
+    · simp only [hk, if_false] at h ⊢
+      simp only [occCbs, ih h]; omega
+
+theorem cntU_nil_of_isEmpty (u : Nat) (cbs : List Cb) (h : cbs.isEmpty = true) : cntU u cbs = 0 := by
+  cases cbs with
+  | nil => rfl
+  | cons a b => simp at h
+
+theorem pot_buildPacketImpl_eq (u : Nat) (sz : Sizes) (c : Conn) (t : Int) (ska : Bool) (delay : Int)
+    (hd : Direct0 u c) (ht : Typed c) (hf : FreshSeq c) :
+    pot u (buildPacketImpl sz c t ska delay).1 = pot u c := by
+  have hres := packResend_from (fun m => m.cb ≠ some (.user u)) sz t delay (sortBySeq c.pendingRetryMsg) {} c.pendingRetryMsg
+    (fun x hx => hd.1 x (t_mem_sortBySeq _ x hx)) (by intro m hm; simp at hm)
+  obtain ⟨taken, htk, hperm⟩ := packNew_perm sz c.outgoing (packResend sz t delay (sortBySeq c.pendingRetryMsg) {} c.pendingRetryMsg).1
+  have hmsgs : (packAll sz c t delay).1.msgs = (packResend sz t delay (sortBySeq c.pendingRetryMsg) {} c.pendingRetryMsg).1.msgs ++ taken := htk
+  have hkept : (packAll sz c t delay).2.2 = (packNew sz c.outgoing (packResend sz t delay (sortBySeq c.pendingRetryMsg) {} c.pendingRetryMsg).1).2 := rfl
+  have hsplit : occOut u c.outgoing = occOut u taken + occOut u (packAll sz c t delay).2.2 := by
+    rw [hkept, ← occOut_append]; exact (occOut_perm u hperm).symm
+  have hzero : occOut u (packResend sz t delay (sortBySeq c.pendingRetryMsg) {} c.pendingRetryMsg).1.msgs = 0 :=
+    occOut_zero u _ hres.1
+  have hcnt : occOut u (packAll sz c t delay).1.msgs = occOut u taken := by
+    rw [hmsgs, occOut_append, hzero]; omega
+  have htyped := packAll_typed sz c t delay ht
+  unfold buildPacketImpl
+  simp only
+  split
+  · -- nothing is sent: then nothing was packed (every packed message has a real type)
+    rename_i hty
+    have hnil : (packAll sz c t delay).1.msgs = [] := by
+      cases hm : (packAll sz c t delay).1.msgs with
+      | nil => rfl
+      | cons a rest =>
+        exfalso
+        have := pktType_typed c ska (packAll sz c t delay).1.msgs a (by rw [hm]; exact List.mem_cons_self ..) htyped.1
+        exact this hty
+    have ht0 : occOut u taken = 0 := by rw [← hcnt, hnil]; rfl
+    simp only [pot]; omega
+  · have hreg_cnt := registerMsgs_cnt u t (packAll sz c t delay).1.msgs (packAll sz c t delay).2.1 [] []
+    simp only [cntU, Nat.zero_add] at hreg_cnt
+    have hpot : pot u (registerPacket { c with pendingRetryMsg := (packAll sz c t delay).2.1, outgoing := (packAll sz c t delay).2.2 } t (packAll sz c t delay).1.msgs) = pot u c := by
+      unfold registerPacket
+      simp only [pot]
+      have hfr := occCbs_aset_fresh u c.pendingCbs (seqInc c.seqSending) (registerMsgs t (packAll sz c t delay).1.msgs (packAll sz c t delay).2.1 [] []).2.1 hf
+      split
+      · rename_i hemp
+        have := cntU_nil_of_isEmpty u _ hemp
+        omega
+      · omega
+    split
+    · exact hpot
+    · exact hpot
+
+theorem pot_buildPacket_eq (u : Nat) (sz : Sizes) (c : Conn) (t : Int) (hd : Direct0 u c) (ht : Typed c) (hf : FreshSeq c) :
+    pot u (buildPacket sz c t).1 = pot u c := by
+  unfold buildPacket
+  split
+  · rfl
+  · have := pot_buildPacketImpl_eq u sz c t (decide (t - c.lastKeepAlive > c.keepAlive)) c.keepAlive hd ht hf
+    split
+    · exact this
+    · exact this
+
+theorem splitFrags_ne_nil (mp mf : Nat) (p : Bytes) (h : 0 < p.length) : splitFrags mp mf p.length p ≠ [] := by
+  cases hn : p.length with
+  | zero => omega
+  | succ n =>
+    simp only [splitFrags]
+    have : ¬ p.length = 0 := by omega
+    simp only [this, if_false]
+    split <;> simp
+
+/-- a send that the connection accepts and that is given `u` -/
+def introA (u : Nat) (sz : Sizes) (c : Conn) : Op → Nat
+  | .send p r (some id) =>
+    if id = u ∧ c.status = .connected ∧ (r = 0 ∨ r = -1) ∧
+        (p.length ≤ sz.maxPayload ∨ p.length ≤ sz.maxFragment * maxFragments) then 1 else 0
+  | _ => 0
+
+theorem pot_send_eq (u : Nat) (sz : Sizes) (c : Conn) (p : Bytes) (r : Int) (cb : Option Nat) (hd : Direct0 u c)
+    (hbe : ¬ (r = 1 ∧ cb = some u)) :
+    pot u (send sz c p r cb).1 = pot u c + introA u sz c (.send p r cb) := by
+  have hcbu : ∀ id, cb = some id → (isU u (cb.map Cb.user) = if id = u then 1 else 0) := by
+    intro id h; subst h
+    simp only [Option.map, isU]
+    by_cases h : id = u
+    · simp [h]
+    · have : ¬ (some (Cb.user id) = some (Cb.user u)) := by
+        intro e; injection e with e; injection e with e; exact h e
+      simp [h, this]
+  unfold send
+  split
+  · -- invalid retry mode: refused
+    rename_i hr
+    cases cb with
+    | none => simp [introA]
+    | some id =>
+      simp only [introA]
+      have : ¬ (r = 0 ∨ r = -1) := by
+        intro h; rcases h with h | h
+        · exact hr.1 h
+        · exact hr.2.2 h
+      simp [this]
+  · rename_i hr
+    split
+    · rename_i hst
+      cases cb with
+      | none => simp [introA]
+      | some id => simp [introA, hst]
+    · rename_i hst
+      have hst' : c.status = .connected := by
+        apply Classical.byContradiction; intro x; exact hst x
+      split
+      · rename_i hbig
+        unfold sendFragmented
+        simp only
+        split
+        · rename_i hlim
+          have : ¬ (p.length ≤ sz.maxPayload ∨ p.length ≤ sz.maxFragment * maxFragments) := by omega
+          cases cb with
+          | none => simp [introA, pot, occFrag_append, occFrag, heldF]
+          | some id => simp [introA, this, pot, occFrag_append, occFrag, heldF]
+        · rename_i hlim
+          have hlim' : p.length ≤ sz.maxFragment * maxFragments := by omega
+          have hd2 : Direct0 u { c with seqFragment := seqInc c.seqFragment, fragObjs := c.fragObjs ++ [⟨seqInc c.seqFragment, r, cb, splitFrags sz.maxPayload sz.maxFragment p.length p, (splitFrags sz.maxPayload sz.maxFragment p.length p).map (fun _ => none)⟩] } := hd
+          have hf := pot_sendFrags u _ c.fragObjs.length (seqInc c.seqFragment) (splitFrags sz.maxPayload sz.maxFragment p.length p).length (if r = -1 then 0 else r) 0 (splitFrags sz.maxPayload sz.maxFragment p.length p) hd2
+          have hne := splitFrags_ne_nil sz.maxPayload sz.maxFragment p (by omega)
+          have hall : ((splitFrags sz.maxPayload sz.maxFragment p.length p).map (fun _ => (none : Option Bool))).all (fun a => a.isSome) = false := by
+            cases hx : splitFrags sz.maxPayload sz.maxFragment p.length p with
+            | nil => exact absurd hx hne
+            | cons a b => simp
+          have hnew : heldF u ⟨seqInc c.seqFragment, r, cb, splitFrags sz.maxPayload sz.maxFragment p.length p, (splitFrags sz.maxPayload sz.maxFragment p.length p).map (fun _ => none)⟩ = introA u sz c (.send p r cb) := by
+            simp only [heldF, hall]
+            have hr' : r = 0 ∨ r = -1 ∨ r = 1 := by
+              by_cases h0 : r = 0
+              · exact Or.inl h0
+              · by_cases h2 : r = -1
+                · exact Or.inr (Or.inl h2)
+                · by_cases h1 : r = 1
+                  · exact Or.inr (Or.inr h1)
+                  · exact absurd ⟨h0, h1, h2⟩ hr
+            cases cb with
+            | none => simp [introA]
+            | some id =>
+              simp only [introA]
+              by_cases h : id = u
+              · subst h
+                have hr2 : r = 0 ∨ r = -1 := by
+                  rcases hr' with h0 | h0 | h0
+                  · exact Or.inl h0
+                  · exact Or.inr h0
+                  · exact absurd ⟨h0, rfl⟩ hbe
+                simp [hst', hr2, Or.inr hlim']
+              · have : ¬ (some id = some u) := fun e => h (Option.some.inj e)
+                simp [h, this]
+          have hp2 : pot u { c with seqFragment := seqInc c.seqFragment, fragObjs := c.fragObjs ++ [⟨seqInc c.seqFragment, r, cb, splitFrags sz.maxPayload sz.maxFragment p.length p, (splitFrags sz.maxPayload sz.maxFragment p.length p).map (fun _ => none)⟩] } = pot u c + introA u sz c (.send p r cb) := by
+            simp only [pot, occFrag_append, occFrag]; omega
+          have : pot u ({ sendFrags { c with seqFragment := seqInc c.seqFragment, fragObjs := c.fragObjs ++ [⟨seqInc c.seqFragment, r, cb, splitFrags sz.maxPayload sz.maxFragment p.length p, (splitFrags sz.maxPayload sz.maxFragment p.length p).map (fun _ => none)⟩] } c.fragObjs.length (seqInc c.seqFragment) (splitFrags sz.maxPayload sz.maxFragment p.length p).length (if r = -1 then 0 else r) 0 (splitFrags sz.maxPayload sz.maxFragment p.length p) with pendingFrags := aset (sendFrags { c with seqFragment := seqInc c.seqFragment, fragObjs := c.fragObjs ++ [⟨seqInc c.seqFragment, r, cb, splitFrags sz.maxPayload sz.maxFragment p.length p, (splitFrags sz.maxPayload sz.maxFragment p.length p).map (fun _ => none)⟩] } c.fragObjs.length (seqInc c.seqFragment) (splitFrags sz.maxPayload sz.maxFragment p.length p).length (if r = -1 then 0 else r) 0 (splitFrags sz.maxPayload sz.maxFragment p.length p)).pendingFrags (seqInc c.seqFragment) c.fragObjs.length } : Conn)
+              = pot u (sendFrags { c with seqFragment := seqInc c.seqFragment, fragObjs := c.fragObjs ++ [⟨seqInc c.seqFragment, r, cb, splitFrags sz.maxPayload sz.maxFragment p.length p, (splitFrags sz.maxPayload sz.maxFragment p.length p).map (fun _ => none)⟩] } c.fragObjs.length (seqInc c.seqFragment) (splitFrags sz.maxPayload sz.maxFragment p.length p).length (if r = -1 then 0 else r) 0 (splitFrags sz.maxPayload sz.maxFragment p.length p)) := rfl
+          rw [this, hf.1]; exact hp2
+      · rename_i hsmall
+        rw [pot_sendType]
+        cases cb with
+        | none => simp [introA, isU]
+        | some id =>
+          rw [hcbu id rfl]
+          simp only [introA]
+          by_cases h : id = u
+          · subst h
+            have hr' : r = 0 ∨ r = -1 := by
+              by_cases h0 : r = 0
+              · exact Or.inl h0
+              · by_cases h2 : r = -1
+                · exact Or.inr h2
+                · by_cases h1 : r = 1
+                  · exact absurd ⟨h1, rfl⟩ hbe
+                  · exact absurd ⟨h0, h1, h2⟩ hr
+            have hlen : p.length ≤ sz.maxPayload ∨ p.length ≤ sz.maxFragment * maxFragments := by
+              left; omega
+            simp [hst', hr', hlen]
+          · simp [h]
+
+/-! ### conservation over operations and histories -/
+
+def NoDisc : List Op → Prop
+  | [] => True
+  | .disconnect _ :: _ => False
+  | _ :: ops => NoDisc ops
+
+/-- accepted sends given `u` along the run (the state matters: a send on a connection that is not
+CONNECTED is ignored, one above the limit is refused) -/
+def introsA (u : Nat) (E : Env) : Conn → List Op → Nat
+  | _, [] => 0
+  | c, op :: ops => introA u E.sz c op + introsA u E (step E c op).1 ops
+
+/-- the datagram number each build of the history takes is fresh (cf. C05) -/
+def FreshRun (E : Env) : Conn → List Op → Prop
+  | _, [] => True
+  | c, op :: ops => (∀ t, op = .build t → FreshSeq c) ∧ FreshRun E (step E c op).1 ops
+
+theorem pot_step_eq (u : Nat) (E : Env) (hR : E.R.KeepsPot) (c : Conn) (op : Op) (hd : Direct0 u c)
+    (ht : Typed c) (hf : ∀ t, op = .build t → FreshSeq c) (hbe : NoBestEffort u [op]) (hnd : NoDisc [op]) :
+    pot u (step E c op).1 + firedO u (step E c op).2 = pot u c + introA u E.sz c op := by
+  cases op with
+  | send p r cb =>
+    have h := pot_send_eq u E.sz c p r cb hd hbe.1
+    simp only [step]
+    generalize send E.sz c p r cb = x at h
+    obtain ⟨c', o⟩ := x
+    cases o <;> simpa [firedO] using h
+  | build t =>
+    have h := pot_buildPacket_eq u E.sz c t hd ht (hf t rfl)
+    simp only [step]
+    generalize buildPacket E.sz c t = x at h
+    obtain ⟨c', o⟩ := x
+    cases o with
+    | error e => simpa [firedO, introA] using h
+    | ok r =>
+      cases r with
+      | none => simpa [firedO, introA] using h
+      | some pkt =>
+        simp only
+        cases toBytes E.C c'.key pkt <;> simpa [firedO, introA] using h
+  | recv t h d =>
+    have hh := pot_recvDatagram u E.C E.R hR c t h d hd
+    simp only [step]
+    generalize recvDatagram E.C E.R c t h d = x at hh ⊢
+    obtain ⟨c', ev, r⟩ := x
+    simp only at hh ⊢
+    simp only [firedO_append, firedO_map, firedO, introA]
+    omega
+  | tmo t =>
+    have hh := pot_checkTimeoutKeys u c t (c.pendingAcks.map (·.1)) hd
+    simp only [step, checkTimeout, firedO_map, introA]
+    omega
+  | disconnect cb => exact hnd.elim
+  | take => simp [step, firedO, introA, pot]
+
+theorem pot_run_eq (u : Nat) (E : Env) (hR : E.R.KeepsPot) (hT : E.R.KeepsTyped) (c : Conn) (ops : List Op)
+    (hd : Direct0 u c) (ht : Typed c) (hf : FreshRun E c ops) (hbe : NoBestEffort u ops) (hnd : NoDisc ops) :
+    pot u (run E c ops).1 + firedO u (run E c ops).2 = pot u c + introsA u E c ops := by
+  induction ops generalizing c with
+  | nil => simp [run, firedO, introsA]
+  | cons op ops ih =>
+    have hop : NoBestEffort u [op] := by
+      cases op <;> first | exact ⟨hbe.1, trivial⟩ | trivial
+    have hrest : NoBestEffort u ops := by
+      cases op <;> first | exact hbe.2 | exact hbe
+    have hnd1 : NoDisc [op] := by
+      cases op <;> first | trivial | exact hnd.elim
+    have hnd2 : NoDisc ops := by
+      cases op <;> first | exact hnd | exact hnd.elim
+    have h1 := pot_step_eq u E hR c op hd ht hf.1 hop hnd1
+    have hd1 := (pot_step u E (by
+      -- the inequality version of the role hypothesis follows from the equality version
+      exact hR) c op hd hop).2
+    have ht1 : Typed (step E c op).1 := xstep_typed E hT c (.base op) ht
+    have h2 := ih (step E c op).1 hd1 ht1 hf.2 hrest hnd2
+    simp only [run, firedO_append, introsA]
     omega
 
 /-! ### the two subclasses' handshake handlers -/
